@@ -1,5 +1,6 @@
 SPECIFICATION Spec
 CONSTANTS
+  Emit = TRUE
   Lits = {"color", "COLOR", "c~olor", "left"}
   Values = {"red", "blue"}
   Prios = {"", "!important", "!IMPORTANT"}
@@ -7,5 +8,4 @@ CONSTANTS
   MaxHist = 5
 CONSTRAINT Bounded
 VIEW View
-INVARIANT EmitHist
 INVARIANT EmitAlphabet
